@@ -58,6 +58,19 @@ def registry_case(rng):
             "kinds": rng.choice([["IntString", "FloatString", "BooleanString"], ["IntString"], []]), "datetime": True}
 
 
+def default_registry_case(rng):
+    """a generation with every default left alone — no registry argument, so the process-wide default registry of string
+    types is the one every such thread reads — over data full of integer / float / boolean strings"""
+    seed = rng.randint(0, 99)
+    samples = [{"id": str(seed * 1000 + i), "ratio": "%d.5" % i, "flag": "true" if i % 2 else "false",
+                "mixed": str(i) if i % 3 else "%d.25" % i,
+                "items": [{"count": str(j), "weight": "%d.%d" % (j, seed), "name": "n%d" % (j % 3)} for j in range(1, 6)]}
+               for i in range(1, rng.choice([12, 25]))]
+    job = common.gen_job(rng, layout="flat", fw=rng.choice(["dataclasses", "attrs", "pydantic", "base"]))
+    job["preamble"] = None
+    return {"inputs": [["Root", samples]], "cmps": [["percent", 7, 10], ["number", 10]], "job": job, "defaultRegistry": True}
+
+
 def deep_case(rng):
     """objects nested several hundred levels deep: alone such a generation either works or exhausts the stack, and it
     must do the same next to other generations (an interpreter-wide limit changed by one thread is seen by all)"""
@@ -85,6 +98,9 @@ def falsify(ctx):
             b.insert(rng.randrange(len(b) + 1), deep_case(rng))       # a document at the edge of the interpreter's stack
         # a generation with the date/time string types registered: their parsers keep state of their own
         b.insert(rng.randrange(2), registry_case(rng))
+        # ... and several generations that leave the registry argument out: they share the default registry
+        for _k in range(rng.choice([2, 3, 4])):
+            b.insert(rng.randrange(len(b) + 1), default_registry_case(rng))
         batches.append(b)
     flat = [c for b in batches for c in b]
     chunks = [batches[i::8] for i in range(8)]
